@@ -245,6 +245,13 @@ def diagnostic_texts():
         out.append(('diag_user_%s' % n, 'empty %s(const int[] a) { }\nempty @is_you() { %s(3); }' % (n, n)))
         out.append(('diag_user2_%s' % n, 'int %s(int a, int b) { return a; }\nempty @is_you() { write(%s("s")); }' % (n, n)))
         out.append(('diag_value_%s' % n, 'empty @is_you() { int q = %s(2) + 1; write(q); }' % n))
+    # global arrays whose constant length is negative, zero, huge or just inside the limits, referenced so that they are laid out
+    for k, (decl, use) in enumerate((('int a[-1];', 'a[0] = 1;'), ('byte a[0 - 5];', 'write(a.length);'), ('bool a[-9];', 'a[0] = true;'), ('string a[-2];', 'write(a.length);'),
+                                     ('int a[70000];', 'a[0] = 1;'), ('int a[32767];', 'a[0] = 1;'), ('int a[16384];', 'a[1] = 1;'), ('int a[0];', 'write(a.length);'),
+                                     ('byte a[65536];', 'write(a.length);'), ('int a[-32768];', 'write(a.length);'), ('bool a[-1]; int b[2];', 'b[1] = 2; write(a.length);'),
+                                     ('const int N = -3; int a[N];', 'write(a.length);'), ('int a[2 - 5];', 'write(a.length);'))):
+        out.append(('diag_global_length_%d' % k, '%s\nempty @is_you() { %s }' % (decl, use)))
+        out.append(('diag_local_length_%d' % k, 'empty @is_you() { %s %s }' % (decl, use)))
     return out
 
 
